@@ -122,6 +122,67 @@ func (ld *Loaded) resolveType(name string, pkg *types.Package) types.Type {
 		}
 		return types.NewSlice(t)
 	}
+	if strings.HasPrefix(name, "map[") {
+		depth, end := 0, -1
+		for i := 3; i < len(name); i++ {
+			if name[i] == '[' {
+				depth++
+			} else if name[i] == ']' {
+				depth--
+				if depth == 0 {
+					end = i
+					break
+				}
+			}
+		}
+		if end < 0 {
+			return nil
+		}
+		k, v := ld.resolveType(name[4:end], pkg), ld.resolveType(name[end+1:], pkg)
+		if k == nil || v == nil {
+			return nil
+		}
+		return types.NewMap(k, v)
+	}
+	if strings.HasPrefix(name, "func(") {
+		// func(T1, T2) R   (parameter types only, at most one result)
+		depth, end := 0, -1
+		for i := 4; i < len(name); i++ {
+			if name[i] == '(' {
+				depth++
+			} else if name[i] == ')' {
+				depth--
+				if depth == 0 {
+					end = i
+					break
+				}
+			}
+		}
+		if end < 0 {
+			return nil
+		}
+		var ps []*types.Var
+		for _, a := range splitTopLevel(name[5:end]) {
+			a = strings.TrimSpace(a)
+			if a == "" {
+				continue
+			}
+			t := ld.resolveType(a, pkg)
+			if t == nil {
+				return nil
+			}
+			ps = append(ps, types.NewVar(0, nil, "", t))
+		}
+		var rs []*types.Var
+		if r := strings.TrimSpace(name[end+1:]); r != "" {
+			t := ld.resolveType(r, pkg)
+			if t == nil {
+				return nil
+			}
+			rs = append(rs, types.NewVar(0, nil, "", t))
+		}
+		return types.NewSignatureType(nil, nil, nil, types.NewTuple(ps...), types.NewTuple(rs...), false)
+	}
 	if o := types.Universe.Lookup(name); o != nil {
 		if tn, ok := o.(*types.TypeName); ok {
 			return tn.Type()
